@@ -98,6 +98,16 @@ CHECKS = {
                      'never-negotiated (INITIAL) entry after any event; both ends agree after the drain; status output equals the '
                      'table.',
                 note='routing is observed by wrapping IkeSa.process_message / process_expire from the harness'),
+    'C13': dict(level='fault_enumeration', design='3 C13',
+                technique='virtual-clock simulation of the real main_loop: Hypothesis-generated schedules with loss, tick '
+                          'granularity and crash / partition injection plus a directed enumeration (request kind x lost subset x '
+                          'tick size; crash after every step); oracle = timing invariants over the history (byte-identical timer '
+                          're-sends, deadlines, non-decreasing gaps, bounded count, bounded outstanding time, DPD / rekey / hard '
+                          'delete windows, empty SAD within the horizon after a crash)',
+                text='5 request kinds x 16 loss subsets x 2 tick granularities x 4 configurations (incl. COOKIE and both '
+                     'INVALID_KE_PAYLOAD retries); crash of either side or partition after each of 16 scenario steps; idle IKE_SAs '
+                     'through lifetime, colliding rekeys and the hard deadline; seeded walks beyond.',
+                note='the clock is virtual; bounds come from the class constants and the 5 s / 30 s figures of the statement'),
 }
 
 NOT_YET = 'check not built yet in this session (planned, see DESIGN.md section 8)'
